@@ -1,7 +1,41 @@
-(* C03 — property theorems (being extended). *)
-From Coq Require Import List String.
-From NGF Require Import lib.Str.
+(* C03 — property theorems. The generated configuration is lexically valid NGINX whatever the user-controlled
+   strings contain (within the character classes the validators admit); the structural rules (contexts, arities,
+   uniqueness, definedness) are decided per generated file set by ngx/Wf.v on the real generator's output. *)
+From Coq Require Import List String Ascii Bool.
+From NGF Require Import lib.Str ngx.Lexer ngx.Tmpl ngx.SymLex ngx.SymLexProofs ngx.TmplProofs ngx.TmplTheorems.
 Import ListNotations.
 
-Theorem C03_string_roundtrip : forall s, string_of (chars_of s) = s.
-Proof. exact string_of_chars_of. Qed.
+(* The text/template engine (model of the subset the repository's templates use; the parse trees are regenerated from
+   the source on every run and the model is compared with the real engine on every recorded execution): the branches
+   taken and the literal text do not depend on the contents of the holes. *)
+Theorem C03_template_execution_independent_of_contents :
+  forall (sg : nat -> string) (tc : list string),
+    (forall id, sg id <> ""%string) -> (forall id, mem_string (sg id) tc = false) ->
+    forall fuel dot vs ns out vs',
+      exec tc fuel dot vs ns = Some (out, vs') ->
+      exec tc fuel (fill sg dot) (fill_vars sg vs) ns = Some (map (fill_chunk sg) out, fill_vars sg vs').
+Proof. exact exec_fill. Qed.
+
+(* NGINX's tokenizer on text with holes: every admissible filling is tokenized exactly as the symbolic run says. *)
+Theorem C03_tokenizer_run_for_all_contents :
+  forall (sg : nat -> list ascii) xs s, forallb (sym_ok sg) xs = true ->
+    match slrun s xs with
+    | RDone s' out => lrun (inst_st sg s) (expand sg xs) = Some (inst_st sg s', map (inst_tok sg) out)
+    | RErr => lrun (inst_st sg s) (expand sg xs) = None
+    | RUnsupported => True
+    end.
+Proof. exact slrun_sound. Qed.
+
+(* Both layers: lexical validity of a generated fragment is decided once for all contents of its holes. *)
+Theorem C03_fragment_valid_for_all_contents :
+  forall t d cls chunks, run t d = Some chunks ->
+    slrun SLStart (syms_cls cls chunks) <> RUnsupported ->
+    forall sg1 sg2 : nat -> string,
+      forallb (sym_ok (fun id => chars_of (sg1 id))) (syms_cls cls chunks) = true ->
+      forallb (sym_ok (fun id => chars_of (sg2 id))) (syms_cls cls chunks) = true ->
+      match lex (render sg1 chunks), lex (render sg2 chunks) with
+      | Some t1, Some t2 => map tok_kind t1 = map tok_kind t2
+      | None, None => True
+      | _, _ => False
+      end.
+Proof. exact template_skeleton_independent. Qed.
